@@ -830,3 +830,103 @@ package chord
 //@   at after call Import#*: ghost imports := imports + 1
 //@   ensures local-a-node-that-is-gone-refuses-and-stores-nothing: (reads == 1 && (st == chord.Inactive || st == chord.Leaving || st == chord.Left)) ==> (err == chord.ErrNodeGone && imports == 0)
 //@   ensures local-otherwise-the-stores-answer-is-returned: (reads == 1 && st != chord.Inactive && st != chord.Leaving && st != chord.Left) ==> (imports == 1 && err == ierr)
+
+// ---- C10: ring-wide listing. Fork/join decomposition (trusted: errgroup, sync.WaitGroup, channel semantics):
+//   the ring walk visits successor after successor starting just after the node, refuses a ring that repeats a node
+//   before coming back, and ends with the node itself: the list of nodes has pairwise distinct ring ids, the node
+//   itself exactly once (last);
+//   exactly one listing task is started per listed node with the blocking errgroup.Go (never dropped), each task
+//   asks its own node with the direct-target context and the caller's prefix and sends the answer exactly once;
+//   the collector appends every received batch; the closer waits for all tasks, then closes the result channel, then
+//   waits for the collector, then reports; the caller returns the collected keys only after that report was nil.
+//   A directly targeted node lists its own store only while Active, under the surrogate read lock.
+//@ func (n *LocalNode) ListKeys(ctx context.Context, prefix []byte) (keys []*protocol.KeyComposite, err error)
+//@   opt frame=off
+//@   safety off
+//@   use ids48
+//@   requires started: n.state != nil && n.state.history != nil && n.ID() < 281474976710656
+//@   ghost direct bool = false
+//@   ghost forks int = 0
+//@   ghost ctxOK bool = false
+//@   ghost waited int = 0
+//@   ghost werr error = nil
+//@   at after call GetRequestTarget#1: ghost direct := callresult == protocol.Context_KV_DIRECT_TARGET
+//@   at call WithContext#1: assert per-node-requests-are-marked-direct: callarg1 != nil && callarg1.RequestTarget == protocol.Context_KV_DIRECT_TARGET
+//@   at call WithContext#1: assert the-walk-ends-with-every-node-once-and-this-node-last: len(nodes) >= 1 && cast(nodes[len(nodes) - 1], "*LocalNode") == n && (forall j int {nodes[j]} :: (0 <= j && j < len(nodes) - 1) ==> (nodes[j] != nil && nodes[j].ID() != n.ID())) && (forall i, j int {nodes[i], nodes[j]} :: (0 <= i && i < j && j < len(nodes) - 1) ==> nodes[i].ID() != nodes[j].ID())
+//@   at call WithContext#1: ghost ctxOK := true
+//@   at call Go#*: assert one-blocking-task-per-listed-node: ctxOK && forks == rangeindex
+//@   at call Go#*: ghost forks := forks + 1
+//@   at call TryGo#?: assert listing-tasks-are-never-dropped: false
+//@   at after recv#1: ghost werr := callresult
+//@   at after recv#1: ghost waited := waited + 1
+//@   ensures local-a-ring-wide-listing-returns-only-after-every-task-and-the-collector-finished-without-error: (!direct && err == nil) ==> (waited == 1 && werr == nil && forks >= 1)
+//@   loop 1: invariant distinct-nodes-so-far-none-of-them-this-node: seen != nil && next != nil && (forall j int {nodes[j]} :: (0 <= j && j < len(nodes)) ==> (nodes[j] != nil && has(seen, nodes[j].ID()) && seen[nodes[j].ID()] && nodes[j].ID() != n.ID())) && (forall i, j int {nodes[i], nodes[j]} :: (0 <= i && i < j && j < len(nodes)) ==> nodes[i].ID() != nodes[j].ID()) && !direct && !ctxOK && forks == 0 && waited == 0
+//@   loop 2: invariant one-task-per-node-so-far: forks == rangeindex + 1 && ctxOK && waited == 0 && !direct
+
+// a directly targeted node lists its own store only while Active, under the surrogate read lock
+//@ func (n *LocalNode) ListKeys$1() (keys []*protocol.KeyComposite, err error)
+//@   opt frame=off
+//@   safety off
+//@   requires started: n.state != nil && n.state.history != nil
+//@   ghost locked bool = false
+//@   ghost st chord.State = 0
+//@   ghost reads int = 0
+//@   ghost lists int = 0
+//@   ghost lkeys []*protocol.KeyComposite
+//@   ghost lerr error = nil
+//@   at call RLock#*: ghost locked := true
+//@   at call Get#*: assert state-read-under-the-lock: locked && reads == 0
+//@   at after call Get#*: ghost st := callresult
+//@   at after call Get#*: ghost reads := reads + 1
+//@   at call ListKeys#*: assert lists-its-own-store-with-the-callers-prefix-while-active: any(callrecv) == any(n.kv) && callarg0 == ctx && callarg1 == prefix && locked && reads == 1 && st == chord.Active && lists == 0
+//@   at after call ListKeys#*: ghost lkeys := callresult0
+//@   at after call ListKeys#*: ghost lerr := callresult1
+//@   at after call ListKeys#*: ghost lists := lists + 1
+//@   ensures local-a-node-that-is-not-active-refuses: (reads == 1 && st != chord.Active) ==> (err == chord.ErrKVStaleOwnership && lists == 0)
+//@   ensures local-otherwise-the-stores-answer-is-returned: (reads == 1 && st == chord.Active) ==> (lists == 1 && keys == lkeys && err == lerr)
+
+// the collector appends every batch it receives, in order, and calls Done exactly once (deferred)
+//@ func (n *LocalNode) ListKeys$2()
+//@   opt frame=off
+//@   safety off
+//@   ghost dones int = 0
+//@   ghost batches int = 0
+//@   at defer Done#*: assert done-is-deferred-before-collecting: dones == 0 && batches == 0
+//@   at defer Done#*: ghost dones := dones + 1
+//@   at call append#*: assert every-received-batch-is-appended-to-the-result: callarg0 == keys
+//@   at call append#*: ghost batches := batches + 1
+//@   ensures local-done-once: dones == 1
+
+// one listing task: asks its own node with the group context and the caller's prefix; an error is returned to the
+// group (which cancels the others), an answer is sent exactly once
+//@ func (n *LocalNode) ListKeys$3() (err error)
+//@   opt frame=off
+//@   safety off
+//@   ghost lists int = 0
+//@   ghost lkeys []*protocol.KeyComposite
+//@   ghost lerr error = nil
+//@   ghost sends int = 0
+//@   at call ListKeys#*: assert asks-its-own-node-with-the-group-context-and-the-callers-prefix: any(callrecv) == any(node) && callarg0 == listCtx && callarg1 == prefix && lists == 0
+//@   at after call ListKeys#*: ghost lkeys := callresult0
+//@   at after call ListKeys#*: ghost lerr := callresult1
+//@   at after call ListKeys#*: ghost lists := lists + 1
+//@   at send#*: assert sends-exactly-the-nodes-answer-once: callarg0 == resultCh && callarg1 == lkeys && lists == 1 && lerr == nil && sends == 0
+//@   at send#*: ghost sends := sends + 1
+//@   ensures local-an-error-goes-to-the-group-an-answer-to-the-collector: lists == 1 && ((lerr != nil) ==> (err == lerr && sends == 0)) && ((lerr == nil) ==> (err == nil && sends == 1))
+
+// the closer: all tasks, then close the result channel, then the collector, then the report
+//@ func (n *LocalNode) ListKeys$4()
+//@   opt frame=off
+//@   safety off
+//@   ghost step int = 0
+//@   ghost gerr error = nil
+//@   at call Wait#1: assert first-wait-for-every-listing-task: step == 0
+//@   at after call Wait#1: ghost gerr := callresult
+//@   at after call Wait#1: ghost step := 1
+//@   at call close#*: assert then-close-the-result-channel: step == 1 && callarg0 == resultCh
+//@   at call close#*: ghost step := 2
+//@   at call Wait#2: assert then-wait-for-the-collector: step == 2
+//@   at call Wait#2: ghost step := 3
+//@   at send#*: assert then-report-the-groups-error: step == 3 && callarg0 == gErr && callarg1 == gerr
+//@   at send#*: ghost step := 4
+//@   ensures local-all-four-steps: step == 4
